@@ -205,6 +205,7 @@ def scenarios(tier):
             pos = (len(shape.variants) - 1, 1)
             tl = [M(t) for t in cfg]
             add('%s/f-ignore/%s' % (ctag, tag), shape, tl, f={pos: [M(carrier, [P('ignore', sp_flag('ignore'))], whole=[carrier + ' = false'])]})
+            add('%s/f-notignore/%s' % (ctag, tag), shape, tl, f={pos: [M(carrier, [P('ignore', ['ignore = false', 'ignore(false)'])], whole=[carrier + ' = true'])]})
             for rk in (3, -2, 0, 2 ** 63 - 1, -2 ** 63 + 1):
                 add('%s/f-rank%d/%s' % (ctag, rk, tag), shape, tl, f={pos: [M(carrier, [P('rank', sp_rank(rk))])]})
             # the extremes of isize, alone and next to another parameter (a negative literal that is not the last token reaches the parser as a negation expression);
